@@ -40,4 +40,6 @@ VARIANTS = [
         dict(file=D, old="            modified_nodes -= set(mol_to_mod)\n    return matches", new="            modified_nodes -= set(mol_to_mod)\n            break\n    return matches")]),
     dict(name='uncovered-group-aborts-selection', expect='fire', key='MPT-mod-groups|select', edits=[
         dict(file=D, old="                           type='unmapped-atom')\n            continue\n        needed_mod_mappings.update(covered_by)", new="                           type='unmapped-atom')\n            break\n        needed_mod_mappings.update(covered_by)")]),
+    dict(name='attrs_from_node-applies-replacements-to-the-original', expect='fire', key='ALIAS-source|vermouth/processors/do_mapping.py|attrs_from_node|node', edits=[
+        dict(file=D, old="        node = node.copy()\n        node.update(node['replace'])", new="        work = node.copy()\n        node.update(node['replace'])\n        node = work")]),
 ]
